@@ -80,10 +80,22 @@ def load_registry():
     return reg
 
 
+def full_name(h):
+    """rules::path_value::verif_<file>::<harness> (needed for --exact; --harness alone is a substring match)"""
+    t = h["target"]
+    assert t.startswith("guard/src/") and t.endswith(".rs")
+    mod = t[len("guard/src/"):-3]
+    if mod.endswith("/mod"):
+        mod = mod[:-4]
+    base = os.path.basename(h["file"])[:-3]
+    return mod.replace("/", "::") + f"::verif_{base}::" + h["name"]
+
+
 def select(reg, prop, tier, only=None):
     out = []
     for h in reg.values():
-        if prop not in h["props"]:
+        # "C08:t" = serves C08 in the thorough tier only
+        if prop not in h["props"] and not (tier == "thorough" and prop + ":t" in h["props"]):
             continue
         if only and h["name"] not in only:
             continue
@@ -203,7 +215,7 @@ def run_kani(slot, names, per_harness_timeout, total_timeout, extra=(), jobs=Non
            "--harness-timeout", f"{per_harness_timeout}s", "-j", str(jobs)]
     for n in names:
         cmd += ["--harness", n]
-    cmd += ["--exact"] if False else []
+    cmd += ["--exact"]
     cmd += list(extra)
     t0 = time.time()
     # memory guard: 14 GB of address space per process (CBMC winners use 0.8-3 GB)
@@ -282,14 +294,15 @@ def parse_terse(out, names):
                 pending_fail.update(file=m.group(1), line=int(m.group(2)), func=m.group(3))
             if ln.startswith("VERIFICATION:- SUCCESSFUL"):
                 r["status"] = "SUCCESSFUL"
-            elif ln.startswith("VERIFICATION:- FAILED"):
-                r["status"] = "FAILED"
+            elif ln.startswith("VERIFICATION:- FAILED") and r["status"] not in ("ERROR", "TIMEOUT"):
+                r["status"] = "FAILED" if r["failed_checks"] else "ERROR"
             m = re.match(r"^Verification Time: ([\d.]+)s", ln)
             if m:
                 r["time"] = float(m.group(1))
             if "CBMC timed out" in ln or "timed out" in ln.lower() and "harness" in ln.lower():
                 r["status"] = "TIMEOUT"
-            if "Status: ERROR" in ln or "out of memory" in ln.lower() or "CBMC failed" in ln or "bad_alloc" in ln:
+            if ("Status: ERROR" in ln or "out of memory" in ln.lower() or "CBMC failed" in ln or "bad_alloc" in ln
+                    or "CBMC crashed" in ln):
                 r["status"] = "ERROR"
         i += 1
     return res
@@ -309,27 +322,27 @@ def extract_playback_tests(out):
     return tests
 
 
-def native_replay(slot, hdir, harness, tests, release=False):
-    """Append playback tests to the scratch copy of the harness file and run them natively (no stubs,
-    real std, real regex) with `cargo kani playback`. Returns (reproduced, log)."""
+def native_replay(slot, hdir, harness, tests):
+    """Append the playback tests to the scratch copy of the harness file and run them natively (no stubs,
+    real std, real regex, dev profile = the profile Kani models) with `cargo kani playback`.
+    (`cargo kani playback` of Kani 0.68 has no --release switch; release-profile behaviour is not replayed.)
+    Returns (reproduced, logs)."""
     dst = os.path.join(hdir, os.path.basename(harness["file"]))
     orig = open(dst).read()
     with open(dst, "w") as f:
         f.write(orig + "\n" + "\n".join(src for _, src in tests) + "\n")
     reproduced, logs = False, []
     try:
-        for name, _ in tests:
-            cmd = ["cargo", "kani", "playback", "-Z", "concrete-playback", "--lib"]
-            if release:
-                cmd.append("--release")
-            cmd += ["--", name, "--exact"] if False else ["--", name]
-            p = subprocess.run(cmd, cwd=os.path.join(slot.src, "guard"), env=kani_env(), stdout=subprocess.PIPE,
-                               stderr=subprocess.STDOUT, text=True, errors="replace", timeout=1800)
-            tail = "\n".join(l for l in p.stdout.splitlines() if not l.startswith("warning") and l.strip())[-3000:]
-            logs.append({"test": name, "profile": "release" if release else "dev", "exit": p.returncode,
-                         "tail": tail})
-            if re.search(r"test result: FAILED|panicked at", p.stdout):
-                reproduced = True
+        flt = f"kani_concrete_playback_{harness['name']}_"
+        cmd = ["cargo", "kani", "playback", "-Z", "concrete-playback", "--lib", "--", flt]
+        p = subprocess.run(cmd, cwd=os.path.join(slot.src, "guard"), env=kani_env(), stdout=subprocess.PIPE,
+                           stderr=subprocess.STDOUT, text=True, errors="replace", timeout=1800)
+        keep = [l for l in p.stdout.splitlines() if re.search(r"^test |panicked at|^test result|^error", l)]
+        pan = re.findall(r"panicked at [^\n]*\n[^\n]*", p.stdout)
+        logs.append({"tests": [t for t, _ in tests], "profile": "dev", "exit": p.returncode,
+                     "summary": keep[:40], "panics": pan[:10]})
+        if re.search(r"test result: FAILED", p.stdout):
+            reproduced = True
     finally:
         with open(dst, "w") as f:
             f.write(orig)
@@ -392,7 +405,7 @@ def run_property(slot, prop, tier, seed, hs, t0, a):
     except Inconclusive as e:
         return finish(prop, tier, seed, t0, hs, {}, [str(e)], [], [], None, slot)
     src_hash = tree_hash(slot.src)
-    out, rc, wall = run_kani(slot, list(byname), per_h, total)
+    out, rc, wall = run_kani(slot, [full_name(h) for h in hs], per_h, total)
     os.makedirs(os.path.join(CACHE, "logs"), exist_ok=True)
     with open(os.path.join(CACHE, "logs", f"{prop}.{tier}.kani.log"), "w") as f:
         f.write(out)
@@ -402,6 +415,7 @@ def run_property(slot, prop, tier, seed, hs, t0, a):
         errs = [l for l in out.splitlines() if l.startswith("error")][:8]
         problems.append("harness/crate does not compile under kani against the current tree: " + " | ".join(errs))
     known = load_known()
+    failing = []
     for n, r in res.items():
         h = byname[n]
         if r["status"] == "MISSING":
@@ -432,37 +446,49 @@ def run_property(slot, prop, tier, seed, hs, t0, a):
             problems.append(f"{n}: unwinding assertion failed (bound too small for current code) - inconclusive")
             continue
         fcs = [fc for fc in fcs if "unwinding" not in fc["desc"]]
-        # counterexample -> concrete playback -> native replay
-        log(f"[{prop}] {n} FAILED: {[fc['desc'] for fc in fcs]}; extracting counterexample")
-        pout, prc, _ = run_kani(slot, [n], per_h, per_h + 600, extra=["-Z", "concrete-playback",
-                                                                      "--concrete-playback=print"], jobs=1)
-        tests = extract_playback_tests(pout)
-        reproduced, logs = (False, [])
-        if tests:
-            reproduced, logs = native_replay(slot, hdir, h, tests)
-            rel_rep, rel_logs = native_replay(slot, hdir, h, tests, release=True)
-            logs += rel_logs
-        else:
-            logs = [{"note": "kani produced no concrete playback test", "tail": pout[-2000:]}]
-        os.makedirs(os.path.join(REPLAY_DIR, prop), exist_ok=True)
-        rp = os.path.join(REPLAY_DIR, prop, f"{n}.json")
-        json.dump({"property": prop, "harness": n, "harness_file": h["file"], "target": h["target"],
-                   "failed_checks": fcs, "playback_tests": [{"name": t, "source": s} for t, s in tests],
-                   "native_replay": logs, "reproduced_dev": reproduced,
-                   "reproduced_release": rel_rep if tests else False,
-                   "tree_hash": src_hash, "desc": h["desc"]}, open(rp, "w"), indent=1)
-        if not reproduced:
-            problems.append(f"{n}: counterexample did not reproduce natively (encoding/stub artefact?) - see {rp}")
-            continue
-        keys = [finding_key(h, fc) for fc in fcs]
-        listed = [k for k in keys if any(k == e["key"] and prop in e["properties"] for e in known["known"])]
-        if len(listed) == len(keys):
-            for k in listed:
-                e = next(e for e in known["known"] if e["key"] == k)
-                known_lines.append(f"KNOWN-FINDING: property={prop} {e['what']}")
-            r["known"] = True
-        else:
-            violations.append((n, fcs, rp))
+        failing.append((n, fcs))
+    # counterexamples -> concrete playback -> native replay; batched, at most MAX_REPLAY harnesses
+    MAX_REPLAY = 3
+    if failing:
+        todo = failing[:MAX_REPLAY]
+        log(f"[{prop}] FAILED: {[(n, [fc['desc'] for fc in fcs][:3]) for n, fcs in failing]}; extracting counterexamples "
+            f"for {[n for n, _ in todo]}")
+        pout, prc, _ = run_kani(slot, [full_name(byname[n]) for n, _ in todo], per_h, per_h + 600,
+                                extra=["-Z", "concrete-playback", "--concrete-playback=print"])
+        with open(os.path.join(CACHE, "logs", f"{prop}.{tier}.playback.log"), "w") as f:
+            f.write(pout)
+        all_tests = extract_playback_tests(pout)
+        any_reproduced = False
+        for n, fcs in todo:
+            h = byname[n]
+            tests = [(t, src) for t, src in all_tests if t.startswith(f"kani_concrete_playback_{n}_")]
+            reproduced, logs = (False, [])
+            if tests:
+                reproduced, logs = native_replay(slot, hdir, h, tests)
+            else:
+                logs = [{"note": "kani produced no concrete playback test"}]
+            os.makedirs(os.path.join(REPLAY_DIR, prop), exist_ok=True)
+            rp = os.path.join(REPLAY_DIR, prop, f"{n}.json")
+            json.dump({"property": prop, "harness": n, "harness_file": h["file"], "target": h["target"],
+                       "failed_checks": fcs, "playback_tests": [{"name": t, "source": s} for t, s in tests],
+                       "native_replay": logs, "reproduced_dev": reproduced,
+                       "also_failed_not_replayed": [m for m, _ in failing[MAX_REPLAY:]],
+                       "tree_hash": src_hash, "desc": h["desc"]}, open(rp, "w"), indent=1)
+            if not reproduced:
+                problems.append(f"{n}: counterexample did not reproduce natively (encoding/stub artefact?) - see {rp}")
+                continue
+            any_reproduced = True
+            keys = [finding_key(h, fc) for fc in fcs]
+            listed = [k for k in keys if any(k == e["key"] and prop in e["properties"] for e in known["known"])]
+            if len(listed) == len(keys):
+                for k in listed:
+                    e = next(e for e in known["known"] if e["key"] == k)
+                    known_lines.append(f"KNOWN-FINDING: property={prop} {e['what']}")
+                res[n]["known"] = True
+            else:
+                violations.append((n, fcs, rp))
+        for n, fcs in failing[MAX_REPLAY:]:
+            problems.append(f"{n}: FAILED {[fc['desc'] for fc in fcs][:2]} (not replayed: replay budget is {MAX_REPLAY} harnesses per run)")
     return finish(prop, tier, seed, t0, hs, res, problems, violations, known_lines, src_hash, slot, a)
 
 
@@ -572,7 +598,7 @@ def do_replay(prop, path):
         tests = [(t["name"], t["source"]) for t in d["playback_tests"]]
         rep, logs = native_replay(slot, hdir, h, tests)
         for l in logs:
-            print(l.get("tail", "")[-1500:])
+            print("\n".join(l.get("summary", []) + l.get("panics", [])))
         if rep:
             print(f"VIOLATION property={prop} replay={path}")
             return 1
